@@ -310,13 +310,18 @@ def c16_jobs(tier):
     q = tier == "quick"
     jobs = [_job("numba_table", "n=%d" % n, {"n": n}, w=n ** 3) for n in range(1, (12 if q else 26) + 1)]
     jobs += [_job("numba_stream", "n=%d" % n, {"n": n}, w=n ** 3) for n in range(1, (12 if q else 26) + 1)]
+    # large n with a single unit (closed-form column only, cheap): entries beyond 2**31
+    for n in (65535, 65536, 70000) + (() if q else (100000, 200000)):
+        jobs.append(_job("numba_table", "n=%d/s=1" % n, {"n": n, "smax": 1}, w=50))
+    jobs.append(_job("numba_stream", "n=70000/s=1", {"n": 70000, "smax": 1}, w=50))
     return jobs
 
 
 PROPS["C16"] = {
     "fatal": ["C16."], "jobs": c16_jobs,
     "bounds": lambda tier: {"n": [1, 12 if tier == "quick" else 26], "s": "table: min(1,n-1)..n+1; streams: unbounded symbolic",
-                            "storage": "RAM, DISK"},
+                            "storage": "RAM, DISK", "large_n_probe": "table and stream with one unit at n in {65535, 65536, 70000} "
+                            "(thorough also 100000, 200000): cost entries beyond 2**31"},
     "outside": ["numba-compiled semantics (int64 wrap-around, typed tuples): njit is the identity wrapper here",
                 "n beyond the bound"],
     "trusted": ["z3"], "assumptions": [],
